@@ -250,8 +250,10 @@ func (c *Conn) writeFrame(ctx context.Context, fin bool, flate bool, opcode opco
 	}
 	defer c.writeFrameMu.unlock()
 
-	// Nothing may follow a close frame, see RFC 6455 section 5.5.1.
-	if opcode != opClose && atomic.LoadInt32(&c.wroteClose) == 1 {
+	// No data frame may follow a close frame, see RFC 6455 section 5.5.1. Control
+	// frames still may: a ping received before the peer's close frame has to be
+	// answered, see section 5.5.2.
+	if (opcode == opText || opcode == opBinary || opcode == opContinuation) && atomic.LoadInt32(&c.wroteClose) == 1 {
 		return 0, fmt.Errorf("failed to write frame: close frame already sent: %w", net.ErrClosed)
 	}
 
